@@ -758,7 +758,11 @@ bool TypeAuditor::ViRecursion(Cursor iter) {
   if (!iterationValue.has_value()) {
     return false;
   } 
-  if (!env.AreCompatible(iterationValue.value(), initType.value())) {
+  // Note: variable holds initial value before the first iteration and it can be the result of full recursion,
+  // so typification of variable and result covers both initial and iteration values
+  const auto& initial = std::get<Typification>(initType.value());
+  auto resultType = env.Merge(std::get<Typification>(iterationValue.value()), initial);
+  if (!resultType.has_value()) {
     OnError(
       SemanticEID::typesNotEqual,
       iter(iterationIndex).pos.start, 
@@ -768,22 +772,38 @@ bool TypeAuditor::ViRecursion(Cursor iter) {
     return false;
   }
 
+  auto isStable = false;
   { 
     const auto guard = noWarnings.CreateGuard();
     for (auto retries = typeDeductionDepth; retries > 0; --retries) {
       ClearLocalVariables();
-      if (!VisitChildDeclaration(iter, 0, std::get<Typification>(iterationValue.value()))) {
+      if (!VisitChildDeclaration(iter, 0, resultType.value())) {
         return false;
       }
-      auto newIteration = ChildType(iter, iterationIndex);
-      if (!newIteration.has_value()) {
+      iterationValue = ChildType(iter, iterationIndex);
+      if (!iterationValue.has_value()) {
         return false;
       }
-      if (std::get<Typification>(newIteration.value()) == std::get<Typification>(iterationValue.value())) {
+      auto newResult = env.Merge(std::get<Typification>(iterationValue.value()), initial);
+      if (!newResult.has_value()) {
         break;
       }
-      iterationValue = newIteration;
+      if (newResult.value() == resultType.value()) {
+        isStable = true;
+        break;
+      }
+      resultType = std::move(newResult);
     }
+  }
+  if (!isStable) {
+    // Note: typification of the iteration has no fixed point, so no type describes the resulting value
+    OnError(
+      SemanticEID::typesNotEqual,
+      iter(iterationIndex).pos.start,
+      iterationValue.value(),
+      initType.value()
+    );
+    return false;
   }
 
   if (isFull) {
@@ -793,7 +813,7 @@ bool TypeAuditor::ViRecursion(Cursor iter) {
   }
 
   EndScope(iter->pos.start);
-  return SetCurrent(iterationValue.value());
+  return SetCurrent(resultType.value());
 }
 
 bool TypeAuditor::ViDecart(Cursor iter) {
